@@ -539,7 +539,7 @@ func rewriteGroupNoFlat(s string) string {
 }
 
 var forallInRe = regexp.MustCompile(`^\s*(forall|exists)\s+([A-Za-z_][A-Za-z0-9_]*)\s+in\s+(.*)$`)
-var forallTRe = regexp.MustCompile(`^\s*(forall|exists)\s+([A-Za-z_][A-Za-z0-9_]*)\s+([A-Za-z_][A-Za-z0-9_.\[\]*]*)\s*::(.*)$`)
+var forallTRe = regexp.MustCompile(`^\s*(forall|exists)\s+([A-Za-z_][A-Za-z0-9_]*)\s+([*A-Za-z_][A-Za-z0-9_.\[\]*]*)\s*::(.*)$`)
 
 // rewriteFlat handles quantifiers and implications in a text whose bracket groups are already rewritten.
 func rewriteFlat(s string) string {
